@@ -123,7 +123,7 @@ class PostgreSQLQueryBuilder(QueryBuilder):
 
     def _set_returns_for_star(self) -> None:
         self._returns = [
-            returning for returning in self._returns if not hasattr(returning, "table")
+            returning for returning in self._returns if not self._is_plain_column(returning)
         ]
         self._return_star = True
 
